@@ -371,6 +371,57 @@ def elem_count(facts, fn, root):
     return None, None
 
 
+def counter_range(body, fn, facts, ev, local):
+    """(0, n - 1) when `local` is a loop counter: initialised to 0 outside its loop, stepped by exactly 1 inside, the loop
+    left through `counter < n` with n a known constant (literal, or a value with an exact interval such as
+    `min(tab.len(), 16)` over a 16-entry array), and the loop classified as a progressing counter loop."""
+    from .loopprog import classify
+    for h, blocks in body.loops().items():
+        kind, _d = classify(facts, fn, body, h, blocks, ev)
+        if kind != "counter":
+            continue
+        for bi in blocks:
+            t = body.blocks[bi]["t"]
+            if t[0] != "switch":
+                continue
+            cl = operand_local(t[1])
+            d = body.single_def(cl) if cl is not None else None
+            if not d or d[2] != "A" or d[3][2][0] != "bin" or d[3][2][1] != "Lt":
+                continue
+            n = const_int(d[3][2][3])
+            if n is None:
+                iv = ev.op_ival(d[3][2][3])
+                n = int(iv[0]) if iv is not None and iv[0] == iv[1] and iv[0] < (1 << 32) else None
+            if n is None:
+                continue
+            c = operand_local(d[3][2][2])
+            for _ in range(6):
+                dd = body.single_def(c) if c is not None else None
+                if dd and dd[2] == "A" and dd[3][2][0] == "use" and dd[3][2][1][0] in ("cp", "mv"):
+                    c = operand_local(dd[3][2][1])
+                else:
+                    break
+            if c is None or c != local:
+                continue
+            defs = body.defs().get(c, [])
+            init = [x for x in defs if x[0] not in blocks]
+            step = [x for x in defs if x[0] in blocks]
+            if len(init) == 1 and init[0][2] == "A" and init[0][3][2][0] == "use" and const_int(init[0][3][2][1]) == 0 and step:
+                ok = True
+                for x in step:
+                    rv = x[3][2] if x[2] == "A" else None
+                    if rv is None:
+                        ok = False
+                    elif rv[0] == "use":
+                        sd = body.single_def(operand_local(rv[1])) if operand_local(rv[1]) is not None else None
+                        rv = sd[3][2] if sd and sd[2] == "A" else None
+                    if not (rv and rv[0] == "bin" and rv[1] in ("Add", "AddUnchecked", "AddWithOverflow") and const_int(rv[3]) == 1):
+                        ok = False
+                if ok:
+                    return (0, n - 1)
+    return None
+
+
 def loop_range_ok(body, fn, facts, n):
     """The function's single loop iterates a Range 0..n."""
     from .absint import FnEval
@@ -1076,6 +1127,8 @@ def check_lookup(facts, fn, verified):
                     x = o[1][0]
                     continue
             break
+        if len(body.defs().get(x, [])) > 1:
+            return counter_range(body, fn, facts, ev, x)       # `let mut i = 0; while i < n { .. tab[i] ..; i += 1 }`
         return None
 
     def visit_place(pl):
